@@ -47,6 +47,7 @@ class Layout:
         self.wrap = None        # None | 'rhs' | 'all'
         self.comment = {}       # physical line number within the statement -> comment text
         self.between = {}       # boundary index of a break -> whole line(s) put between the two continuation lines (blank / comment-only)
+        self.glued_comment = False   # the trailing comment follows the last token without a blank ('...X#note')
 
 
 def atoms_of(eq):
@@ -113,7 +114,7 @@ def render_eq(eq, lay=None):
         out = '(' + out + ')'
     c = lines_comment.pop(line, None)
     if c:
-        out += '  # ' + c
+        out += ('#' + c) if lay.glued_comment else ('  # ' + c)
     return out
 
 
@@ -196,6 +197,18 @@ def variants_of_eq(eq):
         lay = Layout()
         lay.comment[0] = text
         yield ('T1-trailing-comment', 0, lay)
+    lay = Layout()
+    lay.comment[0] = 'glued to the statement'
+    lay.glued_comment = True
+    yield ('T1-trailing-comment-glued', 0, lay)
+    # T6: inside the brackets of the right-hand side, a line break between a name and its index bracket
+    for i, (kind, payload) in enumerate(atoms):
+        if kind == 'term' and i >= 2 and payload.index_text():
+            for sep in ('\n    ', ' \n', '\n'):
+                lay = Layout()
+                lay.wrap = 'rhs'
+                lay.term[i] = {'pre_bracket': sep}
+                yield ('T6-break-before-index', i, lay)
     # T2/T1 inside a statement spread over parentheses: a blank line or a comment-only line between two continuation lines
     first_break = next((i for i in range(2, n - 1) if atoms[i][0] == 'tok' and re.fullmatch(r'\*\*|<=|>=|==|!=|[-+*/<>,(]|and|or|if|else|not', atoms[i][1])), None)
     if first_break is not None:
